@@ -36,6 +36,7 @@ type Node struct {
 	E      []*Node         `json:"e,omitempty"`
 	He     bool            `json:"he,omitempty"`
 	H      int             `json:"h,omitempty"`
+	D      *Decl           `json:"d,omitempty"` // a declaration used as a statement inside a block (C24)
 }
 
 type Cap struct {
@@ -225,6 +226,12 @@ func (r *renderer) expr(n *Node) string {
 	case "var":
 		return r.index(n.M, n.Idx)
 	case "pat":
+		if pt := r.p.Pats[n.P-1]; pt.Long && n.P%2 == 0 {
+			// over the limit only as a whole: two literals that are each within it
+			base := pt
+			base.Long = false
+			return "/" + strings.ReplaceAll(base.Regex(), "/", `\/`) + strings.Repeat("a?", 300) + "/ + /" + strings.Repeat("a?", 300) + "/"
+		}
 		re := r.p.Pats[n.P-1].Regex()
 		if r.o.SplitPats && len(re) > 8 {
 			k := strings.Index(re, ") (")
@@ -334,6 +341,8 @@ func (r *renderer) block(b *strings.Builder, ss []*Node, ind string) {
 			b.WriteString(ind + "@" + s.Name + " {\n")
 			r.block(b, s.T, ind+"  ")
 			b.WriteString(ind + "}\n")
+		case "decl":
+			b.WriteString(ind + declText(*s.D) + "\n")
 		case "next":
 			b.WriteString(ind + "next\n")
 		case "stop":
@@ -370,32 +379,37 @@ func (n *Node) UnmarshalJSON(b []byte) error {
 	return nil
 }
 
+func declText(d Decl) string {
+	var b strings.Builder
+	if d.Hidden {
+		b.WriteString("hidden ")
+	}
+	b.WriteString(d.Kind + " " + d.Name)
+	if len(d.Keys) > 0 {
+		b.WriteString(" by " + strings.Join(d.Keys, ", "))
+	}
+	if d.As != "" {
+		b.WriteString(" as " + strconv.Quote(d.As))
+	}
+	if len(d.Buckets) > 0 {
+		bs := make([]string, len(d.Buckets))
+		for i, x := range d.Buckets {
+			bs[i] = strconv.FormatFloat(float64(x[0])/float64(x[1]), 'f', -1, 64)
+		}
+		b.WriteString(" buckets " + strings.Join(bs, ", "))
+	}
+	if d.Limit > 0 {
+		b.WriteString(" limit " + strconv.Itoa(d.Limit))
+	}
+	return b.String()
+}
+
 // Render produces mtail source text for the program.
 func Render(p *Program, o RenderOpts) (string, error) {
 	r := &renderer{p: p, o: o}
 	var b strings.Builder
 	for _, d := range p.Decls {
-		if d.Hidden {
-			b.WriteString("hidden ")
-		}
-		b.WriteString(d.Kind + " " + d.Name)
-		if len(d.Keys) > 0 {
-			b.WriteString(" by " + strings.Join(d.Keys, ", "))
-		}
-		if d.As != "" {
-			b.WriteString(" as " + strconv.Quote(d.As))
-		}
-		if len(d.Buckets) > 0 {
-			bs := make([]string, len(d.Buckets))
-			for i, x := range d.Buckets {
-				bs[i] = strconv.FormatFloat(float64(x[0])/float64(x[1]), 'f', -1, 64)
-			}
-			b.WriteString(" buckets " + strings.Join(bs, ", "))
-		}
-		if d.Limit > 0 {
-			b.WriteString(" limit " + strconv.Itoa(d.Limit))
-		}
-		b.WriteString("\n")
+		b.WriteString(declText(d) + "\n")
 	}
 	if o.SplitPats {
 		used := map[int]bool{}
